@@ -409,7 +409,8 @@ def run(ctx, budget=1.0):
     pending = []
     targets = [a for n in (2, 3, 4) for a in connected_graphs(n)]
     if not ctx.quick:
-        targets += list(connected_graphs(5))
+        # all 728 connected graphs on 5 vertices x 6 settings took > 2 h; a seeded sample keeps the thorough tier inside its budget
+        targets += rng.sample(list(connected_graphs(5)), 160)
     extra = []
     for _ in range(int((6 if ctx.quick else 60) * budget)):
         n = rng.randrange(5, 8)
@@ -424,9 +425,16 @@ def run(ctx, budget=1.0):
     special = {"linear": [nx.to_numpy_array(nx.path_graph(m)).astype(int) for m in (3, 4, 5)]}
     with impl_guard(res, "benchmarks:repeater_graph_states"):
         special["rgs"] = [nx.to_numpy_array(repeater_graph_states(m)).astype(int) for m in (2, 3)]
-    per_target = 2 if ctx.quick else 6
+    per_target = 2 if ctx.quick else 4
+    import time as _time
+    t_start = _time.time()
+    wall_cap = 600 if ctx.quick else 3600
+    skipped_for_time = 0
     # the streams run under common.impl_guard: an exception of graphiq that no call site handles is reported, not a harness crash
     for adj in targets + extra:
+        if _time.time() - t_start > wall_cap:
+            skipped_for_time += 1
+            continue
         with impl_guard(res, "solve", promise=True, input={"adjacency": tu.bits(adj), "n": int(adj.shape[0])}):
             for _ in range(per_target):
                 method = rng.choice([m for m in LC_METHODS if m not in ("rgs", "linear")])
@@ -454,7 +462,9 @@ def run(ctx, budget=1.0):
     st = res.extra.get("assembly_observation", {"solved": 0, "observed": 0})
     coverage_floor(res, "solve:assembly-observed", st["observed"], st["solved"], what="successful solve() runs (loop state observed and compared with the model)")
     res.exhaustive = False
-    res.notes.append(f"targets: all connected graphs on 2..{4 if ctx.quick else 5} vertices + random connected graphs + repeater/linear graphs for the scripted orbit methods")
+    res.notes.append(f"targets: all connected graphs on 2..4 vertices{'' if ctx.quick else ' + a seeded sample of 160 of the 728 connected graphs on 5 vertices'} + random connected graphs "
+                     f"+ repeater/linear graphs for the scripted orbit methods; targets skipped by the wall-clock guard: {skipped_for_time}")
+    res.extra["targets_skipped_for_time"] = skipped_for_time
     res.extra["driver_lines"] = drv.n_lines
     drv.close()
     return res
